@@ -198,7 +198,7 @@ static int fault_decide(int cls) {
 
 /* ---- gates ------------------------------------------------------------- */
 static uint64_t gate_count[16];
-static const char *gate_names[] = {"after_open", "before_write", "after_write", "before_fsync", "after_fsync", "before_mmap", "after_mmap", "before_close", "after_stat", 0};
+static const char *gate_names[] = {"after_open", "before_write", "after_write", "before_fsync", "after_fsync", "before_mmap", "after_mmap", "before_close", "after_stat", "before_open", 0};
 
 static void touch(const char *p) {
     int fd = real_open64(p, O_WRONLY | O_CREAT, 0644);
@@ -272,6 +272,7 @@ int open64(const char *path, int flags, ...) {
     init_real();
     mode_t mode = 0;
     if (flags & (O_CREAT | O_TMPFILE)) { va_list ap; va_start(ap, flags); mode = va_arg(ap, mode_t); va_end(ap); }
+    if (path_matches(path)) gate(9);
     int fd = real_open64(path, flags, mode);
     return after_open(fd, path);
 }
@@ -280,6 +281,7 @@ int open(const char *path, int flags, ...) {
     init_real();
     mode_t mode = 0;
     if (flags & (O_CREAT | O_TMPFILE)) { va_list ap; va_start(ap, flags); mode = va_arg(ap, mode_t); va_end(ap); }
+    if (path_matches(path)) gate(9);
     int fd = real_open(path, flags, mode);
     return after_open(fd, path);
 }
@@ -288,6 +290,7 @@ int openat(int dirfd, const char *path, int flags, ...) {
     init_real();
     mode_t mode = 0;
     if (flags & (O_CREAT | O_TMPFILE)) { va_list ap; va_start(ap, flags); mode = va_arg(ap, mode_t); va_end(ap); }
+    if (path_matches(path)) gate(9);
     int fd = real_openat(dirfd, path, flags, mode);
     return after_open(fd, path);
 }
@@ -296,6 +299,7 @@ int openat64(int dirfd, const char *path, int flags, ...) {
     init_real();
     mode_t mode = 0;
     if (flags & (O_CREAT | O_TMPFILE)) { va_list ap; va_start(ap, flags); mode = va_arg(ap, mode_t); va_end(ap); }
+    if (path_matches(path)) gate(9);
     int fd = real_openat64(dirfd, path, flags, mode);
     return after_open(fd, path);
 }
